@@ -8,7 +8,7 @@ def run_native(threads, msgs, yields, end, tl):
     if rc != 0:
         raise RuntimeError('native dequeue failed: ' + err[-300:])
     f = lambda k: [int(x) for x in out.get(k, '').split(',') if x]
-    return {'ended': out.get('ended') == '1', 'sent_ok': f('sent_ok'), 'sent_err': f('sent_err'), 'handled': f('handled')}
+    return {'terms': [x for x in out.get('terms', '').split(',') if x], 'ended': out.get('ended') == '1', 'sent_ok': f('sent_ok'), 'sent_err': f('sent_err'), 'handled': f('handled')}
 
 
 def violated(o, end):
@@ -25,6 +25,12 @@ def violated(o, end):
             break
     if end in ('drain', 'none') and o['ended'] and end == 'drain' and sorted(h) != sorted(o['sent_ok']):
         bad.append('a_drained_actor_handled_every_accepted_message_exactly_once')
+    if o['ended'] and len(o['terms']) != 1:
+        bad.append('exactly_one_terminal_event')
+    if end == 'drain' and o['ended'] and o['terms'] != ['terminated:Drained']:
+        bad.append('a_drained_actor_stops_by_itself_exactly_once_with_reason_Drained')
+    if end != 'drain' and 'terminated:Drained' in o['terms']:
+        bad.append('only_a_drain_produces_the_reason_Drained')
     if end == 'drain' and (not o['ended'] or o['sent_err']):
         bad.append('drain_after_the_senders_finishes_with_every_send_accepted')
     return bad
@@ -36,7 +42,7 @@ def battery(tl_too=True):
     for tl in ((False, True) if tl_too else (False,)):
         for (threads, msgs, yields, end) in ((1, 6, 0, 'drain'), (3, 5, 1, 'drain'), (2, 300, 1, 'stop'), (2, 300, 2, 'kill')):
             o = run_native(threads, msgs, yields, end, tl)
-            res.append({'threads': threads, 'msgs': msgs, 'yields': yields, 'end': end, 'thread_local': tl, 'handled': len(o['handled']), 'accepted': len(o['sent_ok']), 'violated': violated(o, end)})
+            res.append({'threads': threads, 'msgs': msgs, 'yields': yields, 'end': end, 'thread_local': tl, 'handled': len(o['handled']), 'accepted': len(o['sent_ok']), 'terms': o['terms'], 'violated': violated(o, end)})
     return res
 
 
